@@ -328,12 +328,23 @@ def N4():
         return 'merge of (2,1,2,1) extensions along dim 1 with a global-slices key -> ValueError (%s)' % ex
 
 
+def N6():
+    a = DcmMetaExtension.make_empty((1, 2, 2, 2), np.eye(4), None, 2)
+    a.get_class_dict(('global', 'const'))['k'] = 5
+    b = DcmMetaExtension.make_empty((1, 2, 2, 2), np.eye(4), None, 2)
+    b.get_class_dict(('time', 'samples'))['k'] = [5, 5]
+    r = DcmMetaExtension.from_sequence([a, b], 0)
+    c = r.get_classification('k')
+    if c != ('global', 'const'):
+        return 'merge along non-slice dim 0 of const 5 and widened time-samples [5,5]: k stored as %r' % (c,)
+
+
 def deepcopy_ext(e):
     from copy import deepcopy
     return deepcopy(e)
 
 
-OPEN = ['N1', 'N2', 'N3', 'N4']
+OPEN = ['N1', 'N2', 'N3', 'N4', 'N6']
 ALL = ['F16', 'F15', 'F1', 'F2', 'F3', 'F4', 'F5', 'F6', 'F7', 'F8', 'F9', 'F10', 'F11', 'F12', 'F13', 'F14']
 
 if __name__ == '__main__':
